@@ -256,7 +256,12 @@ def timelines(tier):
                 continue
             out.append((units[idx % 7], units[(idx // 7 + 3) % 7], list(seq)))
             idx += 1
-    return out
+    # instances created through the REST endpoints with a partial timeout dict (one unit, amount 2): the timeout the
+    # instance gets must be the requested one (start-instance for instance 0, start-instances for instance 1)
+    rest = []
+    for j, (u0, u1, seq) in enumerate([t for t in out if len(t[2]) <= 2]):
+        rest.append((units[j % 7], units[(j + 2) % 7], seq, "rest"))
+    return out + rest
 
 
 def run_timeline(tl, mode, env=None):
@@ -264,7 +269,8 @@ def run_timeline(tl, mode, env=None):
     (event, observation, reference observation)"""
     import BPTK_Py.server.bptkServer as srv
     from BPTK_Py.externalstateadapter import InstanceState
-    unit0, unit1, events = tl
+    unit0, unit1, events = tl[0], tl[1], tl[2]
+    via_rest = len(tl) > 3 and tl[3] == "rest"
     env = env or {}
     stubs = harness.Stubs()
     clock = Clock(mode)
@@ -285,6 +291,13 @@ def run_timeline(tl, mode, env=None):
         out = []
         now = clock.origin()
         amounts = {0: val("a0", 2.0), 1: val("a1", 3.0)}
+        client = None
+        if via_rest:
+            # the real Flask routes; the timeout amounts are concrete (2 of the unit), the gaps stay symbolic
+            amounts = {0: 2, 1: 2}
+            app = srv.BptkServer(__name__, lambda: made.append(FakeBptk()) or made[-1], adapter)
+            im = app._instance_manager
+            client = app.test_client()
         pos = []
         for i in (0, 1):
             if mode == "sym":
@@ -299,7 +312,16 @@ def run_timeline(tl, mode, env=None):
         def create(i, unit, t):
             sweep(t)
             before = set(im._instances.keys())
-            uid = im.create_instance(**{unit: amounts[i]})
+            if client is not None:
+                import json as _json
+                if i == 0:
+                    r_ = client.post("/start-instance", data=_json.dumps({"timeout": {unit: amounts[i]}}), content_type="application/json")
+                    uid = _json.loads(r_.data)["instance_uuid"]
+                else:
+                    r_ = client.post("/start-instances", data=_json.dumps({"timeout": {unit: amounts[i]}, "instances": 1}), content_type="application/json")
+                    uid = _json.loads(r_.data)["instance_uuids"][0]
+            else:
+                uid = im.create_instance(**{unit: amounts[i]})
             ref[i] = {"last": t, "tau": clock.delta(unit, amounts[i]), "alive": True, "uid": uid, "destroyed": 0,
                       "bptk": im._instances[uid]["instance"]}
             if i == 0:
@@ -406,7 +428,7 @@ def check_timeline(tl, timeout_s):
         except Exception as e:
             import traceback
             return ("exc", e, traceback.format_exc()[-500:])
-    unit0, unit1, events = tl
+    unit0, unit1, events = tl[0], tl[1], tl[2]
     assumptions = [T.cmp("gt", T.var("a0"), T.ZERO), T.cmp("gt", T.var("a1"), T.ZERO)] + \
                   [T.cmp("ge", T.var("d%d" % n), T.ZERO) for n in range(len(events))]
     try:
@@ -433,7 +455,7 @@ def check_timeline(tl, timeout_s):
 
 
 def replay(case):
-    tl = (case["tl"][0], case["tl"][1], [tuple(e) for e in case["tl"][2]])
+    tl = (case["tl"][0], case["tl"][1], [tuple(e) for e in case["tl"][2]]) + tuple(case["tl"][3:])
     envs = [case.get("env", {})]
     for env in envs:
         res, _ = run_timeline(tl, "float", env)
@@ -502,7 +524,7 @@ def run(tier):
             bad.append((tl, info))
         elif st == "unknown":
             rep.inconcl("timeline %s: %s" % (tl, info))
-        if len(samples) < 6 and (len(tl[2]) >= 3 or st != "holds"):
+        if len(samples) < 6 and (len(tl[2]) >= 3 or st != "holds" or len(tl) > 3):
             samples.append({"timeline": tl, "verdict": st, "paths": np_})
     rep.canary("sweep-uses-strict-comparison", canary_strict_comparison())
     rep.canary("keep-alive-does-not-refresh", canary_keepalive_no_refresh())
@@ -513,7 +535,7 @@ def run(tier):
             continue
         seen.add(sig)
         env = {k: float(v) for k, v in info.items() if isinstance(v, (Fraction, int, float)) and not isinstance(v, bool)}
-        rep.candidate(sig, {"tl": [tl[0], tl[1], [list(e) for e in tl[2]]], "env": env}, "timeline %s: %s" % (tl, info.get("_what")))
+        rep.candidate(sig, {"tl": [tl[0], tl[1], [list(e) for e in tl[2]]] + list(tl[3:]), "env": env}, "timeline %s: %s" % (tl, info.get("_what")))
     rep.assume("clock stub: all now() calls within one event return the event's instant; instants non-decreasing (gaps >= 0 symbolic reals)",
                "timeouts: one unit per instance (every unit covered across timelines), amount > 0 symbolic; datetime/timedelta stub: instants and durations over symbolic real seconds with the attributes of the real classes (days/seconds/microseconds through integer auxiliaries; microsecond rounding outside); replays run on the real datetime module with only now() replaced",
                "bptk factory is a stub recording destroy(); adapter stub holds instance 0's state",
